@@ -445,3 +445,114 @@ Theorem time_parse_leap_second :
   /\ Time.time_hour 86400000000000 = Panic UnwrapNone /\ Time.time_second 86400000000000 = Panic UnwrapNone
   /\ Time.time_with_hour 86400000000000 0 = None.
 Proof. vm_compute. repeat split. Qed.
+
+(* ================================================================== (B') the range premises of C18_wellformed are NECESSARY *)
+Definition acc_in_range (a : accs) : Prop :=
+  in_i32 (a_months a) = true /\ in_i64 (a_secs a) = true /\ in_i64 (a_nsecs a) = true.
+
+Definition acc_sum (a : accs) (ts : list term) : accs :=
+  mk_accs (a_nsecs a + sumf t_nsecs ts) (a_secs a + sumf t_secs ts) (a_months a + sumf t_months ts).
+
+Lemma step_term_inv a t a' :
+  acc_in_range a -> step_term a t = Some a' -> term_in_range t /\ a' = acc_plus a t /\ acc_in_range a'.
+Proof.
+  unfold step_term. destruct (in_i64 (tval t)) eqn:Ev; [|discriminate].
+  unfold term_in_range, acc_plus, t_months, t_secs, t_nsecs, acc_in_range.
+  destruct a as [an asx am]; cbn [a_nsecs a_secs a_months]. intros (Hm & Hs & Hn).
+  destruct (t_unit t); cbn [apply_unit unit_scale a_nsecs a_secs a_months]; unfold add_i64, add_i32;
+    repeat match goal with |- context [if ?b then _ else _] => destruct b eqn:? end;
+    cbn [option_map]; try discriminate; intros [= <-]; cbn [a_nsecs a_secs a_months];
+    rewrite ?Z.mul_1_r in *;
+    (split; [repeat split; auto|]); (split; [f_equal; lia|]); repeat split; auto.
+Qed.
+
+Lemma acc_sum_cons a t l : acc_sum (acc_plus a t) l = acc_sum a (t :: l).
+Proof. unfold acc_sum, acc_plus, sumf. cbn [a_nsecs a_secs a_months fold_right]. f_equal; lia. Qed.
+
+Lemma acc_sum_nil a : acc_sum a [] = a.
+Proof. destruct a. unfold acc_sum, sumf. cbn. f_equal; lia. Qed.
+
+Lemma run_terms_inv : forall ts a a',
+  acc_in_range a -> run_terms a ts = Some a' ->
+  Forall term_in_range ts /\ a' = acc_sum a ts
+  /\ forall k, (k <= length ts)%nat -> acc_in_range (acc_sum a (firstn k ts)).
+Proof.
+  induction ts as [|t r IH]; intros a a' Ha H.
+  - cbn in H. injection H as <-. split; [constructor|]. split; [symmetry; apply acc_sum_nil|].
+    intros k _. destruct k; cbn [firstn]; rewrite acc_sum_nil; exact Ha.
+  - cbn [run_terms] in H. destruct (step_term a t) as [a1|] eqn:E; [|discriminate].
+    destruct (step_term_inv a t a1 Ha E) as (Ht & -> & Ha1).
+    destruct (IH _ _ Ha1 H) as (Hr & -> & Hp).
+    split; [constructor; assumption|]. split; [apply acc_sum_cons|].
+    intros k Hk. destruct k as [|k]; [cbn [firstn]; rewrite acc_sum_nil; exact Ha|].
+    cbn [firstn]. rewrite <- acc_sum_cons. apply Hp. cbn [length] in Hk. lia.
+Qed.
+
+Lemma duration_new_range s n s' n' : duration_new s n = Some (s', n') ->
+  cr_min_secs <= s <= cr_max_secs /\ n < giga
+  /\ (s = cr_max_secs -> n <= cr_max_nanos) /\ (s = cr_min_secs -> cr_min_nanos <= n).
+Proof.
+  unfold duration_new.
+  destruct (Z.ltb_spec s cr_min_secs); [discriminate|]. destruct (Z.gtb_spec s cr_max_secs); [discriminate|].
+  destruct (Z.geb_spec n giga); [discriminate|].
+  destruct (Z.eqb_spec s cr_max_secs); destruct (Z.gtb_spec n cr_max_nanos);
+    destruct (Z.eqb_spec s cr_min_secs); destruct (Z.ltb_spec n cr_min_nanos); cbn; try discriminate;
+    intros _; repeat split; try lia; intros; try lia;
+    unfold cr_max_secs, cr_min_secs in *; lia.
+Qed.
+
+(* converse of finish_ok *)
+Lemma finish_range N S M m t : finish (mk_accs N S M) = POk m t ->
+  - cr_max_secs <= S <= cr_max_secs /\ - (i64_max * 1000000) <= S * giga + N <= i64_max * 1000000.
+Proof.
+  unfold finish. cbn [a_nsecs a_secs a_months].
+  destruct (duration_new S 0) as [[s1 n1]|] eqn:E1; [|discriminate].
+  pose proof (duration_new_range _ _ _ _ E1) as (R1 & _ & _ & R4).
+  apply duration_new_inv in E1. destruct E1 as [-> ->].
+  pose proof (Z.div_mod N giga ltac:(unfold giga; lia)) as HD.
+  pose proof (Z.mod_pos_bound N giga ltac:(unfold giga; lia)) as HB.
+  replace (0 + N mod giga) with (N mod giga) by lia.
+  destruct (Z.geb_spec (N mod giga) giga); [lia|].
+  destruct (duration_new (S + N / giga) (N mod giga)) as [[s2 n2]|] eqn:E2; [|discriminate].
+  pose proof (duration_new_range _ _ _ _ E2) as (Q1 & _ & Q3 & Q4). intros _.
+  unfold giga, cr_min_secs, cr_max_secs, cr_min_nanos, cr_max_nanos, i64_max in *.
+  split; [split; [|lia]|].
+  - destruct (Z.eq_dec S (-9223372036854776)) as [->|]; [specialize (R4 eq_refl); lia|lia].
+  - destruct (Z.eq_dec (S + N / 1000000000) 9223372036854775) as [e|];
+      destruct (Z.eq_dec (S + N / 1000000000) (-9223372036854776)) as [e'|];
+      try specialize (Q3 e); try specialize (Q4 e'); lia.
+Qed.
+
+Lemma acc_in_range_zero : acc_in_range (mk_accs 0 0 0).
+Proof. repeat split. Qed.
+
+Lemma parse_ok_ranges ts m ns :
+  Forall wf_term ts -> parse (render_terms ts) = POk m ns ->
+  (Forall term_in_range ts /\ partial_sums_in_range ts /\ total_in_range ts)
+  /\ m = sumf t_months ts /\ ns = fixed_ns ts.
+Proof.
+  intros Hw H. rewrite (parse_wellformed_run ts Hw) in H.
+  destruct (run_terms (mk_accs 0 0 0) ts) as [a|] eqn:E; [|discriminate H]. cbn [run_result] in H.
+  destruct (run_terms_inv _ _ _ acc_in_range_zero E) as (Hr & -> & Hp).
+  unfold acc_sum in H. cbn [a_nsecs a_secs a_months] in H. rewrite !Z.add_0_l in H.
+  pose proof (finish_range _ _ _ _ _ H) as [T1 T2]. apply finish_inv in H. cbn [a_nsecs a_secs a_months] in H.
+  split; [|exact H]. split; [exact Hr|]. split; [|split; [exact T1|exact T2]].
+  intros k Hk. specialize (Hp k Hk). unfold acc_in_range, acc_sum in Hp. cbn [a_nsecs a_secs a_months] in Hp.
+  rewrite !Z.add_0_l in Hp. exact Hp.
+Qed.
+
+(* the premises of C18_wellformed are exactly the acceptance condition of a well-formed string *)
+Theorem parse_wellformed_iff ts :
+  Forall wf_term ts ->
+  (parse (render_terms ts) = POk (sumf t_months ts) (fixed_ns ts)
+   <-> (Forall term_in_range ts /\ partial_sums_in_range ts /\ total_in_range ts))
+  /\ (parse (render_terms ts) = PErr
+      <-> ~ (Forall term_in_range ts /\ partial_sums_in_range ts /\ total_in_range ts)).
+Proof.
+  intros Hw. split; split.
+  - intros H. apply (parse_ok_ranges ts _ _ Hw H).
+  - intros (H1 & H2 & H3). apply wellformed_sum; assumption.
+  - intros H (H1 & H2 & H3). rewrite (wellformed_sum ts Hw H1 H2 H3) in H. discriminate H.
+  - intros Hn. destruct (parse_ok_or_err (render_terms ts)) as [[m [ns H]]|H]; [|exact H].
+    exfalso. apply Hn. apply (parse_ok_ranges ts m ns Hw H).
+Qed.
